@@ -36,6 +36,8 @@ fn main() {
         "C24" => props::c24::run(&mut ctx),
         "C30" => props::c30::run(&mut ctx),
         "C34" => props::c34::run(&mut ctx),
+        "C38" => props::c38::run(&mut ctx),
+        "C39" => props::c39::run(&mut ctx),
         other => {
             eprintln!("zb: unknown property {other}");
             std::process::exit(3);
